@@ -109,7 +109,7 @@ class Truth:
                 self.since_release[k] += 1
 
 
-def gen_history(r, keys, n, cfg, redundant=False):
+def gen_history(r, keys, n, cfg, redundant=False, norelease=False):
     """Press only keys that are up and release only keys that are down unless `redundant` (pressing a held key /
     releasing an idle key are legal API uses with model-specific quirks; they are explored in flagged histories)."""
     names = list(keys)
@@ -127,6 +127,11 @@ def gen_history(r, keys, n, cfg, redundant=False):
                 ops.append(("press", k))
         elif roll < 0.30:
             pool = names if redundant else sorted(held)
+            if norelease:
+                # variant without physical releases: releases happen only by un-strobing (keeps Rust histories long,
+                # see known finding c14-rs-no-release-event)
+                ops.append(("kol", r.choice((0, 0xFF))))
+                continue
             if pool:
                 k = r.choice(pool)
                 held.discard(k)
@@ -419,17 +424,7 @@ def run_rs_batch(res, jobs, keys):
                 sig["redundant"] = bool(cfg.get("redundant"))
                 res.violation(sig, case, det)
                 ok = False
-                if sig["clause"] in ("missing_release_event", "second_press_event_without_release") and det.get("key"):
-                    # record once, then re-synchronise the automaton with the physical truth and keep monitoring
-                    kk = det["key"]
-                    truth.fsm[kk] = "down" if sig["clause"].startswith("second") else "up"
-                    truth.unheld_ticks_while_down[kk] = 0
-                    truth.nrepeats[kk] = 0
-                    truth.strobed_since_evt[kk] = 0
-                    truth.cadence_unknown.add(kk)
-                    res.count("rs_resynchronised_after_known_mechanism")
-                else:
-                    break
+                break
             # KEYI edge
             res.monitor("keyi_edge")
             isr = o["isr"]
@@ -513,7 +508,8 @@ def run_shard(spec) -> Result:
             cfg = settings(r)
             keys = adversarial_keys(r, table)
             red = r.random() < 0.1
-            ops = gen_history(r, keys, r.randrange(50, 120 if spec["tier"] == "quick" else 300), cfg, redundant=red)
+            ops = gen_history(r, keys, r.randrange(50, 120 if spec["tier"] == "quick" else 300), cfg, redundant=red,
+                              norelease=(not red and r.random() < 0.45))
             jobs.append((dict(cfg, redundant=red), ops, keys))
     else:
         import itertools
